@@ -252,6 +252,13 @@ def _eval_kind_test(t: ast.expr, kind_names: tp.Set[str], k: str, table: tp.Mapp
     if isinstance(t, ast.UnaryOp) and isinstance(t.op, ast.Not):
         v = _eval_kind_test(t.operand, kind_names, k, table)
         return None if v is None else not v
+    # <x>.dtype == DTYPE_OBJECT / DTYPE_BOOL: a comparison of the dtype with a fixed dtype constant decides the kind for that constant's kind only
+    if isinstance(t, ast.Compare) and len(t.ops) == 1 and isinstance(t.ops[0], (ast.Eq, ast.NotEq)) and isinstance(t.left, ast.Attribute) and t.left.attr == 'dtype' \
+            and isinstance(t.comparators[0], ast.Name) and t.comparators[0].id in ('DTYPE_OBJECT', 'DTYPE_BOOL'):
+        kk = {'DTYPE_OBJECT': 'O', 'DTYPE_BOOL': 'b'}[t.comparators[0].id]
+        if k == kk:
+            return isinstance(t.ops[0], ast.Eq)         # object / bool: the kind has exactly one dtype
+        return isinstance(t.ops[0], ast.NotEq)
     if isinstance(t, ast.Compare) and len(t.ops) == 1 and is_kind(t.left):
         rhs = _const_eval(t.comparators[0], table)
         if rhs is None:
@@ -272,48 +279,64 @@ def nullable_kinds(ctx: Ctx) -> None:
     R = 'I.nullable-kinds-consult-missing'
     ctx.rule(R, 'finite case analysis over the eleven NumPy dtype kinds: in isna_array, _ufunc_logical_skipna and the arg-extreme helpers, for each kind that can hold a '
              'missing value (float, complex, datetime64, timedelta64, object) no normal return is reachable before a missing-value predicate (isna_array / np.isnan / '
-             'np.isnat / x != x) has been consulted — a kind-gated shortcut "this array cannot hold NaN" must not cover NaT or None', floor=12)
+             'np.isnat / x != x) has been consulted, and in count no per-vector count is stored from the length alone — a kind-gated shortcut "this array cannot hold NaN" must not cover NaT or None', floor=12)
     from sfa import flow
     prog = ctx.prog
     table = _const_table(prog)
     ctx.require(table.get('DTYPE_INEXACT_KINDS') is not None and table.get('DTYPE_NAT_KINDS') is not None, 'dtype-kind constant tables of util')
     n = 0
-    for qual in ('util.isna_array', 'util._ufunc_logical_skipna', 'util._argminmax_1d', 'util._argminmax_2d'):
+    for qual in ('util.isna_array', 'util._ufunc_logical_skipna', 'util._argminmax_1d', 'util._argminmax_2d', 'frame.Frame.count', 'series.Series.count'):
         f = prog.func(qual)
         kind_names = set(roles.assigned_from_all(f.node, lambda v: isinstance(v, ast.Attribute) and v.attr == 'kind'))
+        counting = f.name == 'count'       # count: each result cell is a count of non-missing cells
         for k in NULLABLE_KINDS:
 
             class C(flow.Client):
+                """state: (a missing-value predicate was consulted on every path, truth of `skipna` if known)"""
+
                 def __init__(self):
                     self.bad: tp.List[ast.AST] = []
 
                 def join(self, a, b):
-                    return a and b          # consulted on every path
+                    return (a[0] and b[0], a[1] if a[1] == b[1] else None)
 
                 def refine(self, atom, st, truth):
                     v = _eval_kind_test(atom, kind_names, k, table)
                     if v is not None and v != truth:
                         return None
+                    if isinstance(atom, ast.Name) and atom.id == 'skipna':
+                        return (st[0], truth)
                     # an empty array holds no missing value: nothing to consult on that branch
                     if truth and isinstance(atom, ast.Compare) and len(atom.ops) == 1 and isinstance(atom.ops[0], ast.Eq) and norm(atom.comparators[0]) == '0' \
                             and (call_name(atom.left) == 'len' if isinstance(atom.left, ast.Call) else norm(atom.left).endswith('.size')):
-                        return True
+                        return (True, st[1])
                     return st
 
                 def on_expr(self, node, st):
                     if isinstance(node, ast.Call) and call_name(node) in MISSING_PREDICATES:
-                        return True
+                        return (True, st[1])
                     if isinstance(node, ast.Compare) and len(node.ops) == 1 and isinstance(node.ops[0], ast.NotEq) and norm(node.left) == norm(node.comparators[0]):
-                        return True
+                        return (True, st[1])
                     if isinstance(node, ast.Compare) and any(isinstance(c_, ast.Constant) and c_.value is None for c_ in node.comparators):
-                        return True
+                        return (True, st[1])
                     return st
 
                 def on_return(self, s, st):
-                    if not st:
+                    if counting:
+                        # count: only a count taken from the length alone, while missing cells are to be skipped, is a shortcut
+                        if not st[0] and st[1] is not False and s.value is not None and any(isinstance(x, ast.Call) and call_name(x) == 'len' for x in ast.walk(s.value)):
+                            self.bad.append(s)
+                    elif not st[0]:
                         self.bad.append(s)
+
+                def on_stmt(self, s, st):
+                    # count: a result cell computed from the length alone before any predicate was consulted, while missing cells are to be skipped
+                    if counting and isinstance(s, ast.Assign) and isinstance(s.targets[0], ast.Subscript) and not st[0] and st[1] is not False \
+                            and any(isinstance(x, ast.Call) and call_name(x) == 'len' for x in ast.walk(s.value)):
+                        self.bad.append(s)
+                    return st
             c = C()
-            flow.Engine(c).run(f.node.body, False)
+            flow.Engine(c).run(f.node.body, (False, None))
             n += 1
             key = f'{f.name}:kind={k}'
             if c.bad:
